@@ -365,6 +365,16 @@ func (e *Engine) enterLoopHeader(st *State, fr *Frame, h *ssa.BasicBlock, ord in
 		}
 		_ = n
 	}
+	// iterators that advance in the loop: the set of keys produced so far is unknown at the loop head
+	if fx.iters || fx.all {
+		for id, ob := range st.objs {
+			if it, ok := ob.(*IterObj); ok {
+				m := st.objs[it.Map].(*MapObj)
+				ks := sortOf(&Term{W: m.KeyW})
+				st.objs[id] = &IterObj{Map: it.Map, Seen: SymSort(fresh("iterseen"), "(Array "+ks+" Bool)")}
+			}
+		}
+	}
 	// map objects written in the loop are havocked as well
 	for id, ob := range st.objs {
 		if m, ok := ob.(*MapObj); ok && (fx.maps || fx.all) {
@@ -389,7 +399,7 @@ func (e *Engine) enterLoopHeader(st *State, fr *Frame, h *ssa.BasicBlock, ord in
 		a := e.evalContract(st, iv, invArgs, true)
 		st.assumeT(a)
 		for _, v := range invArgs {
-			if t, ok := v.(*Term); ok && t.W == 64 && !t.IsConst() {
+			if t, ok := v.(*Term); ok && t.W > 1 && !t.IsConst() {
 				st.instantiateLoose(t) // loop counters and bounds named by the invariant
 			}
 		}
@@ -512,6 +522,12 @@ func (e *Engine) vspecCall(st *State, fr *Frame, name string, args []Val) ([]Out
 					}
 				}
 			}
+			if guarded.C == nil {
+				g2 := *guarded
+				g2.hasSk = true
+				g2.s = ""
+				guarded = &g2
+			}
 			return one(guarded)
 		}
 		// name the quantified formula: qf <=> forall k. guarded  (the axiom travels with the symbol, see Script)
@@ -529,7 +545,7 @@ func (e *Engine) vspecCall(st *State, fr *Frame, name string, args []Val) ([]Out
 		qf := &Term{Leaf: fresh("qf"), W: 0, QDef: all}
 		registerQFacts(qf, bv, guarded, s2.trace.reads)
 		return one(qf)
-	case "ForallKeys":
+	case "ForallKeys", "ForallKeys16":
 		// ForallKeys(m, p): p(k) for every key k (of the key type's full range; p itself says "if present")
 		mv, ok := args[0].(MapV)
 		if iv, isI := args[0].(IfaceV); isI {
@@ -540,9 +556,21 @@ func (e *Engine) vspecCall(st *State, fr *Frame, name string, args []Val) ([]Out
 			fail("ForallKeys: need a map and a function literal")
 		}
 		skolem := st.goal && !st.assume && st.root != nil
-		bv := BoundVar(fresh("k"), 64)
+		kw := st.objs[mv.ID].(*MapObj).KeyW
+		bv := BoundVar(fresh("k"), kw)
 		if skolem {
-			bv = Sym(fresh("sk"), 64)
+			bv = Sym(fresh("sk"), kw)
+		}
+		// the key as a Go value: a scalar, or an array of bytes (first element = most significant byte of the key term)
+		var keyVal Val = bv
+		if at, isArr := fv.Fn.Params[len(fv.Fn.Params)-1].Type().Underlying().(*types.Array); isArr {
+			av := ArrayV{T: fv.Fn.Params[len(fv.Fn.Params)-1].Type()}
+			for j := 0; j < int(at.Len()); j++ {
+				hi := kw - 8*j - 1
+				el := Extract(hi, hi-7, bv)
+				av.E = append(av.E, el)
+			}
+			keyVal = av
 		}
 		s2 := st.clone()
 		s2.spec = true
@@ -550,7 +578,7 @@ func (e *Engine) vspecCall(st *State, fr *Frame, name string, args []Val) ([]Out
 		s2.trace = &readTrace{bases: map[string]*Term{}}
 		n0 := len(s2.pc)
 		saved := e.paths
-		outs := e.execFunc(s2, fv.Fn, []Val{bv}, fv.Bind, 1)
+		outs := e.execFunc(s2, fv.Fn, []Val{keyVal}, fv.Bind, 1)
 		e.paths = saved
 		body := tFalse
 		for _, o := range outs {
@@ -558,11 +586,22 @@ func (e *Engine) vspecCall(st *State, fr *Frame, name string, args []Val) ([]Out
 		}
 		if skolem {
 			e.instantiateAtReads(st, s2.trace.reads)
+			st.root.instantiateLoose(bv)
+			if body.C == nil {
+				b2 := *body
+				b2.hasSk = true
+				b2.s = ""
+				body = &b2
+			}
 			return one(body)
 		}
 		all := Forall(bv, body)
 		qf := &Term{Leaf: fresh("qf"), W: 0, QDef: all}
-		allQFacts = append(allQFacts, &QFact{QF: qf, Key: fmt.Sprintf("map|%d", mv.ID), Shift: BVu(0, 64), BV: bv, Body: body})
+		qfMu.Lock()
+		allQFacts = append(allQFacts, &QFact{QF: qf, Key: fmt.Sprintf("map|%d", mv.ID), Shift: BVu(0, kw), BV: bv, Body: body})
+		// also at the keys an iteration produces and at skolem constants (no memory read determines the instance)
+		looseQFacts = append(looseQFacts, &QFact{QF: qf, BV: bv, Body: body})
+		qfMu.Unlock()
 		return one(qf)
 	case "BufOld":
 		_, id := e.bufOf(st, args[0])
@@ -611,6 +650,10 @@ func (e *Engine) vspecCall(st *State, fr *Frame, name string, args []Val) ([]Out
 			ref = x.Ref
 		case NilV:
 			return one(tTrue)
+		case MapV:
+			// a map made by this call all of whose values are memory of this call (maintained by the engine at
+			// every update)
+			return one(Bool(st.objs[x.ID].(*MapObj).Own))
 		default:
 			fail("vspec.Owned of %T", v)
 		}
@@ -793,14 +836,14 @@ func registerQFacts(qf, bv, body *Term, reads []traceRead) {
 // instantiateLoose assumes, in state s, the instances at index term k of the active quantified facts whose
 // instances no memory read determines.
 func (s *State) instantiateLoose(k *Term) {
-	if k.W != 64 || len(s.qfActive) == 0 {
+	if k.W <= 0 || len(s.qfActive) == 0 {
 		return
 	}
 	qfMu.Lock()
 	fs := append([]*QFact{}, looseQFacts...)
 	qfMu.Unlock()
 	for n, f := range fs {
-		if !s.qfActive[f.QF.Leaf] {
+		if !s.qfActive[f.QF.Leaf] || f.BV.W != k.W {
 			continue
 		}
 		id := fmt.Sprintf("L%d|%s", n, k.String())
